@@ -6,6 +6,7 @@ oracle_c18 — line protocol:
   `tx <beginOk:0|1> <commitOk:0|1> <rollbackOk:0|1> <step>*`   step ::= ok | e<k> | p<k> | pn
       → `events=<e,…> result=<r>`
   `combine <step>*` → `ran=<n> out=<step>`
+  `combinen <step>* (/ <step>*)*` → `ran=<n> out=<step>` for Combine(Combine(g1…), Combine(g2…), …)
   `soak <n>` (n ≤ 200000) → the output of `tx 1 1 1 ok p1 ok` after n failing transactions in the same process
   `par <n> tx …` (1 ≤ n ≤ 64) → the output of the `tx` line (n concurrent calls, each on its own connection)
 The configuration is the one regenerated from the source (`Nv.Gen.C18.cfg`).
@@ -39,6 +40,14 @@ def showResult : Result → String
 def showStep : StepOutcome → String
   | .ok => "ok" | .err e => s!"e{e}" | .panic v => s!"p{v}" | .panicNil => "pn"
 
+def splitGroups : List String → List (List String)
+  | [] => [[]]
+  | t :: rest =>
+    if t == "/" then [] :: splitGroups rest
+    else match splitGroups rest with
+      | g :: gs => (t :: g) :: gs
+      | [] => [[t]]
+
 def stepW : List String → String
   | "tx" :: b :: c :: r :: steps =>
     match parseBool b, parseFinish c, parseFinish r, parseSteps steps with
@@ -58,6 +67,12 @@ def step (_ : Unit) (line : String) : Unit × String :=
   | "par" :: n :: "tx" :: rest =>
     match n.toNat? with
     | some k => if 1 ≤ k ∧ k ≤ 64 then ((), stepW ("tx" :: rest)) else ((), "bad-op")
+    | none => ((), "bad-op")
+  | "combinen" :: rest =>
+    -- groups separated by "/": the nested Combine must equal Combine over the flat list (theorems combine_flatten,
+    -- nested_ran_flatten); the oracle computes it the NESTED way
+    match (splitGroups rest).mapM parseSteps with
+    | some gs => ((), s!"ran={nestedRan gs} out={showStep (combine (gs.map combine))}")
     | none => ((), "bad-op")
   | ["soak", n] =>
     match n.toNat? with
